@@ -14,15 +14,15 @@ Section Inv.
   Variable univ : list (str * doc).
   Variables P P' : IO -> Prop.      (* P along successful paths, P' where the load stopped *)
   Hypothesis P_weak : forall io, P io -> P' io.
-  Hypothesis Hopn : forall d u io, P io ->
-      match opn d u io with (Some _, io') => P io' | (None, io') => P' io' end.
+  Hypothesis HopnS : forall owner u io, P io ->
+      match opn (DomS owner) u io with (Some _, io') => P io' | (None, io') => P' io' end.
 
   Definition post {A} (r : outcome A * IO) : Prop :=
     match r with (Ok _, io') => P io' | (_, io') => P' io' end.
 
   Lemma download_inv owner incl tns u s io : P io -> post (download IO opn owner incl tns u s io).
   Proof.
-    intro H. unfold download. pose proof (Hopn (DomS owner) u io H) as Ho.
+    intro H. unfold download. pose proof (HopnS owner u io H) as Ho.
     destruct (opn (DomS owner) u io) as [[d|] io1]; cbn; auto.
     destruct d; cbn; auto.
     destruct incl; cbn; auto.
@@ -69,6 +69,9 @@ Section Inv.
   Lemma build_schema_inv owner roots io : P io -> post (build_schema IO opn univ owner roots io).
   Proof. intro H. unfold build_schema. apply open_all_inv; auto. Qed.
 
+  Hypothesis HopnW : forall u io, P io ->
+      match opn DomW u io with (Some _, io') => P io' | (None, io') => P' io' end.
+
   Lemma loop_imports_inv rec self :
     (forall u s io, P io -> post (rec u s io)) ->
     forall imps s io, P io -> post (loop_imports IO rec self imps s io).
@@ -84,7 +87,7 @@ Section Inv.
   Lemma load_defs_inv fuel : forall u s io, P io -> post (load_defs IO opn univ fuel u s io).
   Proof.
     induction fuel as [|f IH]; intros u s io H; cbn; auto.
-    pose proof (Hopn DomW u io H) as Ho.
+    pose proof (HopnW u io H) as Ho.
     destruct (opn DomW u io) as [[d|] io1]; cbn; auto.
     destruct d as [imps types|x|]; cbn; auto.
     destruct (alloc_types u types (w_heap s)) as [tids heap].
@@ -135,20 +138,22 @@ Qed.
 
 (* what a fetch returns *)
 Lemma fetch_some W dm u i d :
-  fst (fetch W dm u i) = Some d -> src W u = Some d /\ d <> DBad /\ i_fired (snd (fetch W dm u i)) = i_fired i.
+  fst (fetch W dm u i) = Some d -> served W u = Some d /\ i_fired (snd (fetch W dm u i)) = i_fired i.
 Proof.
-  unfold fetch, src; cbn.
+  unfold fetch, served, src, held; cbn.
   destruct (w_fault W) as [[k fk]|].
   - destruct (Nat.eqb k (i_n i)).
     + destruct fk; cbn; discriminate.
     + destruct (is_suds u && _); cbn; try discriminate.
-      destruct (lookup u (w_docs W)) as [[b d']|]; cbn; try discriminate.
-      destruct d'; cbn; intro H; inversion H; subst; repeat split; try discriminate;
-        rewrite orb_false_r; auto.
+      intro H. split; auto. rewrite orb_false_r; auto.
   - destruct (is_suds u && _); cbn; try discriminate.
-    destruct (lookup u (w_docs W)) as [[b d']|]; cbn; try discriminate.
-    destruct d'; cbn; intro H; inversion H; subst; repeat split; try discriminate;
-      rewrite orb_false_r; auto.
+    intro H. split; auto. rewrite orb_false_r; auto.
+Qed.
+
+Lemma fetch_nofault W dm u i : w_fault W = None -> fst (fetch W dm u i) = served W u.
+Proof.
+  intro H. unfold fetch, served, src, held; cbn. rewrite H.
+  destruct (is_suds u && _); cbn; auto.
 Qed.
 
 Lemma fetch_dcache W dm u i : i_dcache (snd (fetch W dm u i)) = i_dcache i.
@@ -178,7 +183,7 @@ Proof.
   destruct (lookup u (i_dcache i0)); [exact H|].
   pose proof (fetch_some W dm u i0) as Hf.
   destruct (fetch W dm u i0) as [[d|] i1] eqn:Ef; cbn in *.
-  - destruct (Hf d eq_refl) as (Hs & Hb & _).
+  - destruct (Hf d eq_refl) as (Hs & _).
     assert (Hd : i_dcache i1 = i_dcache i) by (change i1 with (snd (Some d, i1)); rewrite <- Ef; reflexivity).
     intros u' d' [Heq|Hin].
     + inversion Heq; subst. auto.
@@ -197,8 +202,8 @@ Proof.
   - destruct (lookup u (i_dcache i0)); cbn; auto.
     pose proof (fetch_some W dm u i0) as Hf.
     destruct (fetch W dm u i0) as [[d'|] i1] eqn:Ef; cbn in *; try discriminate.
-    intros _. destruct (Hf d' eq_refl) as (_ & _ & Hfi). rewrite Hfi. exact H.
-  - intro Hs. destruct (fetch_some W dm u i0 d Hs) as (_ & _ & Hfi). rewrite Hfi. exact H.
+    intros _. destruct (Hf d' eq_refl) as (_ & Hfi). rewrite Hfi. exact H.
+  - intro Hs. destruct (fetch_some W dm u i0 d Hs) as (_ & Hfi). rewrite Hfi. exact H.
 Qed.
 
 (* ---------------- whole loads ---------------- *)
@@ -211,7 +216,7 @@ Proof.
   pose proof (load_root_inv IO opn univ P P (fun _ h => h)) as L.
   assert (Hop : forall d u x, P x -> match opn d u x with (Some _, io') => P io' | (None, io') => P io' end).
   { intros d u x Hx. specialize (Ho d u x Hx). destruct (opn d u x) as [[?|] ?]; auto. }
-  specialize (L Hop root io H). unfold post in L.
+  specialize (L (fun o => Hop (DomS o)) (Hop DomW) root io H). unfold post in L.
   destruct (load_root IO opn univ root io) as [[?|?|] ?]; auto.
 Qed.
 
@@ -244,7 +249,7 @@ Proof.
                 match opn_c W d u x with (Some _, io') => i_fired io' = false | (None, io') => True end).
   { intros d u x Hx. pose proof (opn_c_fired W d u x) as Hf.
     destruct (opn_c W d u x) as [[d'|] x'] eqn:E; auto. apply (Hf d'); auto. }
-  specialize (L Hop root i H). unfold post in L.
+  specialize (L (fun o => Hop (DomS o)) (Hop DomW) root i H). unfold post in L.
   destruct (load_root io (opn_c W) (docs_of W) root i) as [[?|?|] ?]; auto.
 Qed.
 
@@ -316,7 +321,7 @@ Section Term.
   Hypothesis Pio_opn : forall d u io, Pio io -> Pio (snd (opn d u io)).
   Hypothesis opn_univ : forall d u io x, Pio io -> fst (opn d u io) = Some x -> In (u, x) univ.
 
-  Definition good {S} (m : S -> nat) (r : outcome S * IO) (s : S) : Prop :=
+  Definition fine {S} (m : S -> nat) (r : outcome S * IO) (s : S) : Prop :=
     fst r <> OutOfFuel /\ (forall s', fst r = Ok s' -> m s' <= m s) /\ Pio (snd r).
 
   Lemma download_term owner incl tns u s io :
@@ -362,9 +367,9 @@ Section Term.
   Qed.
 
   Lemma open_refs_term rec cont owner self tns base f :
-    (forall t s io, Pio io -> phi univ s < f -> good (phi univ) (rec t s io) s) ->
+    (forall t s io, Pio io -> phi univ s < f -> fine (phi univ) (rec t s io) s) ->
     forall refs i s io, Pio io -> phi univ s <= f ->
-      good (phi univ) (open_refs IO opn rec cont owner self tns base i refs s io) s.
+      fine (phi univ) (open_refs IO opn rec cont owner self tns base i refs s io) s.
   Proof.
     intro Hrec. induction refs as [|r rest IH]; intros i s io H Hf; cbn.
     - repeat split; auto; try discriminate. intros s' E. inversion E; subst. lia.
@@ -392,7 +397,7 @@ Section Term.
 
   Lemma open_imports_term cont owner fuel :
     forall t s io, Pio io -> phi univ s < fuel ->
-      good (phi univ) (open_imports IO opn cont owner fuel t s io) s.
+      fine (phi univ) (open_imports IO opn cont owner fuel t s io) s.
   Proof.
     induction fuel as [|f IH]; intros t s io H Hf; [lia|]. cbn.
     dm.
@@ -402,7 +407,7 @@ Section Term.
 
   Lemma open_all_term cont owner fuel :
     forall js s io, Pio io -> phi univ s < fuel ->
-      good (phi univ) (open_all IO opn cont owner fuel js s io) s.
+      fine (phi univ) (open_all IO opn cont owner fuel js s io) s.
   Proof.
     induction js as [|j rest IH]; intros s io H Hf; cbn.
     - repeat split; auto; try discriminate. intros s' E. inversion E; subst. lia.
@@ -482,13 +487,13 @@ Section Term.
   Qed.
 
   Lemma loop_imports_term rec self f :
-    (forall u s io, Pio io -> lookup u (w_memo s) = None -> psi s < f -> good psi (rec u s io) s) ->
-    forall imps s io, Pio io -> psi s < f -> good psi (loop_imports IO rec self imps s io) s.
+    (forall u s io, Pio io -> lookup u (w_memo s) = None -> psi s < f -> fine psi (rec u s io) s) ->
+    forall imps s io, Pio io -> psi s < f -> fine psi (loop_imports IO rec self imps s io) s.
   Proof.
     intro Hrec. induction imps as [|loc rest IH]; intros s io H Hf; cbn.
     - repeat split; auto; try discriminate. intros s' E. inversion E; subst. lia.
     - assert (K : forall s1 io1, Pio io1 -> psi s1 <= psi s ->
-                  good psi (match lookup (join self loc) (w_memo s1) with
+                  fine psi (match lookup (join self loc) (w_memo s1) with
                             | Some d => loop_imports IO rec self rest
                                           (if d_wsdl d then import_definitions self d s1
                                            else import_schema self d s1) io1
@@ -512,7 +517,7 @@ Section Term.
 
   Lemma load_defs_term fuel :
     forall u s io, Pio io -> lookup u (w_memo s) = None -> psi s < fuel ->
-      good psi (load_defs IO opn univ fuel u s io) s.
+      fine psi (load_defs IO opn univ fuel u s io) s.
   Proof.
     induction fuel as [|f IH]; intros u s io H Hn Hf; [lia|]. cbn.
     pose proof (Pio_opn DomW u io H) as Hp.
@@ -674,3 +679,690 @@ Section Rel.
     R a b -> rel (load_root IO1 opn1 univ root a) (load_root IO2 opn2 univ root b).
   Proof. apply load_defs_rel. Qed.
 End Rel.
+
+(* ------------------------------------------------------------------ *)
+(* cache transparency: with a healthy source, what is in a sound cache *)
+(* does not change the result of a load                                *)
+(* ------------------------------------------------------------------ *)
+
+Definition both_sound (W : world) (a b : io) : Prop :=
+  cache_sound W (i_dcache a) /\ cache_sound W (i_dcache b).
+
+Lemma opn_c_answer W dm u i :
+  w_fault W = None -> cache_sound W (i_dcache i) -> fst (opn_c W dm u i) = served W u.
+Proof.
+  intros Hf Hs. unfold opn_c.
+  set (i0 := mkIO (i_log i) ((dm, u) :: i_reqs i) (i_dcache i) (i_n i) (i_fired i)).
+  destruct (N.eqb (w_policy W) 0).
+  - destruct (lookup u (i_dcache i0)) eqn:E; cbn.
+    + symmetry. apply Hs. apply lookup_in. exact E.
+    + pose proof (fetch_nofault W dm u i0 Hf) as Hn.
+      destruct (fetch W dm u i0) as [[d|] i1]; cbn in *; auto.
+  - apply fetch_nofault; auto.
+Qed.
+
+Lemma opn_c_rel W : w_fault W = None ->
+  forall d u a b, both_sound W a b ->
+    fst (opn_c W d u a) = fst (opn_c W d u b) /\ both_sound W (snd (opn_c W d u a)) (snd (opn_c W d u b)).
+Proof.
+  intros Hf d u a b [Ha Hb]. split.
+  - rewrite !opn_c_answer; auto.
+  - split; apply opn_c_sound; auto.
+Qed.
+
+Lemma load_transparent_l W root a b :
+  w_fault W = None -> cache_sound W (i_dcache a) -> cache_sound W (i_dcache b) ->
+  fst (load_root io (opn_c W) (docs_of W) root a) = fst (load_root io (opn_c W) (docs_of W) root b).
+Proof.
+  intros Hf Ha Hb.
+  destruct (load_root_rel io io (opn_c W) (opn_c W) (docs_of W) (both_sound W) (opn_c_rel W Hf) root a b) as [E _].
+  - split; auto.
+  - exact E.
+Qed.
+
+(* ------------------------------------------------------------------ *)
+(* termination of the concrete load                                    *)
+(* ------------------------------------------------------------------ *)
+
+Lemma good_some x d : good x = Some d -> x = Some d.
+Proof. destruct x as [[]|]; cbn; congruence. Qed.
+
+Lemma served_in_docs W u d : served W u = Some d -> In (u, d) (docs_of W).
+Proof.
+  unfold served. destruct (is_suds u && negb (held W u)); [discriminate|].
+  intro H. apply good_some in H. unfold src in H.
+  destruct (lookup u (w_docs W)) as [[b d']|] eqn:E; [|discriminate]. inversion H; subst.
+  apply lookup_in in E. unfold docs_of. apply in_map_iff. exists (u, (b, d)). auto.
+Qed.
+
+Lemma opn_c_univ W dm u i x :
+  cache_sound W (i_dcache i) -> fst (opn_c W dm u i) = Some x -> In (u, x) (docs_of W).
+Proof.
+  intros Hs. unfold opn_c.
+  set (i0 := mkIO (i_log i) ((dm, u) :: i_reqs i) (i_dcache i) (i_n i) (i_fired i)).
+  destruct (N.eqb (w_policy W) 0).
+  - destruct (lookup u (i_dcache i0)) eqn:E; cbn.
+    + intro H. inversion H; subst. apply served_in_docs. apply Hs. apply lookup_in. exact E.
+    + pose proof (fetch_some W dm u i0) as Hf.
+      destruct (fetch W dm u i0) as [[d|] i1]; cbn in *; try discriminate.
+      intro H. inversion H; subst. destruct (Hf x eq_refl) as [Hv _]. apply served_in_docs; auto.
+  - intro H. destruct (fetch_some W dm u i0 x H) as [Hv _]. apply served_in_docs; auto.
+Qed.
+
+Lemma load_terminates_l W root i :
+  cache_sound W (i_dcache i) -> fst (load_root io (opn_c W) (docs_of W) root i) <> OutOfFuel.
+Proof.
+  apply (load_root_term io (opn_c W) (docs_of W) (fun x => cache_sound W (i_dcache x))).
+  - intros d u x. apply opn_c_sound.
+  - intros d u x y. apply opn_c_univ.
+Qed.
+
+(* ------------------------------------------------------------------ *)
+(* the client constructor                                              *)
+(* ------------------------------------------------------------------ *)
+Opaque load_root.
+
+Lemma client_terminates_l W root oc i :
+  cache_sound W (i_dcache i) -> fst (fst (client_load W root oc i)) <> OutOfFuel.
+Proof.
+  intro H. unfold client_load. destruct (N.eqb (w_policy W) 1 && oc); cbn; [discriminate|].
+  pose proof (load_terminates_l W root i H) as T.
+  destruct (load_root io (opn_c W) (docs_of W) root i) as [[s|k|] i']; cbn in *; congruence.
+Qed.
+
+Lemma client_io W root oc i :
+  snd (fst (client_load W root oc i)) = i \/
+  snd (fst (client_load W root oc i)) = snd (load_root io (opn_c W) (docs_of W) root i).
+Proof.
+  unfold client_load. destruct (N.eqb (w_policy W) 1 && oc); cbn; auto.
+  destruct (load_root io (opn_c W) (docs_of W) root i) as [[s|k|] i']; cbn; auto.
+Qed.
+
+Lemma client_sbt_l W root oc i :
+  sbt W (i_log i) = true -> sbt W (i_log (snd (fst (client_load W root oc i)))) = true.
+Proof.
+  intro H. destruct (client_io W root oc i) as [E|E]; rewrite E; auto. apply load_sbt_l; auto.
+Qed.
+
+Lemma client_sound_l W root oc i :
+  cache_sound W (i_dcache i) -> cache_sound W (i_dcache (snd (fst (client_load W root oc i)))).
+Proof.
+  intro H. destruct (client_io W root oc i) as [E|E]; rewrite E; auto. apply load_sound_l; auto.
+Qed.
+
+Lemma cache_sound_docs W W' c : w_docs W = w_docs W' -> cache_sound W c -> cache_sound W' c.
+Proof.
+  intros E H u d Hin. specialize (H u d Hin). unfold served, held, src in *. rewrite <- E. exact H.
+Qed.
+
+Lemma failure_atomic_l docs pol k fk root :
+  let Wf := mkWorld docs pol (Some (k, fk)) in
+  let Wh := mkWorld docs pol None in
+  let r := client_load Wf root false io0 in
+  i_fired (snd (fst r)) = true ->
+  (forall x, fst (fst r) <> Ok x) /\ snd r = false /\
+  cache_sound Wh (i_dcache (snd (fst r))) /\
+  fst (load_root io (opn_c Wh) (docs_of Wh) root (mkIO [] [] (i_dcache (snd (fst r))) 0 false))
+  = fst (load_root io (opn_c Wh) (docs_of Wh) root io0).
+Proof.
+  intros Wf Wh r Hf.
+  assert (S0 : cache_sound Wf (i_dcache io0)) by (intros u d []).
+  assert (Sr : cache_sound Wh (i_dcache (snd (fst r)))).
+  { apply (cache_sound_docs Wf Wh); auto. apply client_sound_l; auto. }
+  assert (K : match fst (fst r) with Ok _ => False | _ => snd r = false end).
+  { unfold r, client_load in *. rewrite andb_false_r in *.
+    pose proof (load_fired_l Wf root io0 eq_refl) as L.
+    destruct (load_root io (opn_c Wf) (docs_of Wf) root io0) as [[s|j|] i']; cbn in *; auto.
+    congruence. }
+  split; [|split; [|split]]; auto.
+  - intros x E. rewrite E in K. exact K.
+  - destruct (fst (fst r)); tauto.
+  - apply load_transparent_l; auto.
+Qed.
+
+(* ------------------------------------------------------------------ *)
+(* fetch once: no (memo domain, URL) is requested twice                *)
+(* ------------------------------------------------------------------ *)
+
+Lemma has_cons_mono {A} v u (x : A) memo : has v memo = true -> has v ((u, x) :: memo) = true.
+Proof. unfold has. cbn. destruct (str_eqb v u); auto. Qed.
+
+Lemma has_cons_same {A} u (x : A) memo : has u ((u, x) :: memo) = true.
+Proof. unfold has. cbn. rewrite str_eqb_refl. auto. Qed.
+
+Lemma has_none {A} u (memo : list (str * A)) : lookup u memo = None -> has u memo = false.
+Proof. unfold has. intros ->. auto. Qed.
+
+Definition rkey (q : dom * str) : str := match q with (DomW, u) => u | (DomS o, _) => o end.
+
+Section Once.
+  Variable IO : Type.
+  Variable opn : dom -> str -> IO -> option doc * IO.
+  Variable univ : list (str * doc).
+  Variable reqs : IO -> list (dom * str).
+  Hypothesis Hreq : forall d u io, reqs (snd (opn d u io)) = (d, u) :: reqs io.
+
+  Section Schema.
+    Variable owner : str.
+
+    Definition SI (s : sst) (io : IO) : Prop :=
+      NoDup (reqs io) /\ forall u, In (DomS owner, u) (reqs io) -> has u (s_memo s) = true.
+    Definition sframe (io io' : IO) : Prop :=
+      forall q, In q (reqs io') -> In q (reqs io) \/ fst q = DomS owner.
+    Definition sstep (s : sst) (io : IO) (s' : sst) (io' : IO) : Prop :=
+      SI s' io' /\ sframe io io' /\ forall u, has u (s_memo s) = true -> has u (s_memo s') = true.
+    Definition sfail (io io' : IO) : Prop := NoDup (reqs io') /\ sframe io io'.
+    Definition spost (s : sst) (io : IO) (r : outcome sst * IO) : Prop :=
+      match r with (Ok s', io') => sstep s io s' io' | (_, io') => sfail io io' end.
+
+    Lemma sstep_refl s io : SI s io -> sstep s io s io.
+    Proof. intro H. split; auto. split; [intros q; auto|auto]. Qed.
+
+    Lemma sstep_fail s io s' io' : sstep s io s' io' -> sfail io io'.
+    Proof. intros [[N _] [F _]]. split; auto. Qed.
+
+    Lemma sstep_trans s io s2 io2 s3 io3 :
+      sstep s io s2 io2 -> sstep s2 io2 s3 io3 -> sstep s io s3 io3.
+    Proof.
+      intros [I2 [F2 M2]] [I3 [F3 M3]]. split; auto. split.
+      - intros q Hq. destruct (F3 q Hq) as [H|H]; auto.
+      - intros u Hu. auto.
+    Qed.
+
+    Lemma sstep_fail_trans s io s2 io2 io3 : sstep s io s2 io2 -> sfail io2 io3 -> sfail io io3.
+    Proof.
+      intros [I2 [F2 M2]] [N3 F3]. split; auto.
+      intros q Hq. destruct (F3 q Hq) as [H|H]; auto.
+    Qed.
+
+    Lemma spost_trans s io s2 io2 r : sstep s io s2 io2 -> spost s2 io2 r -> spost s io r.
+    Proof.
+      intros H1 H2. destruct r as [[s3|k|] io3]; cbn in *.
+      - eapply sstep_trans; eauto.
+      - eapply sstep_fail_trans; eauto.
+      - eapply sstep_fail_trans; eauto.
+    Qed.
+
+    Lemma SI_rem s rem io : SI s io -> SI (mkS (s_memo s) rem) io.
+    Proof. intro H. exact H. Qed.
+
+    Definition tpost (s : sst) (io : IO) (r : outcome (option sid * sst) * IO) : Prop :=
+      match r with (Ok (_, s'), io') => sstep s io s' io' | (_, io') => sfail io io' end.
+
+    Lemma download_once incl tns u s io :
+      SI s io -> lookup u (s_memo s) = None -> tpost s io (download IO opn owner incl tns u s io).
+    Proof.
+      intros [N M] Hn. unfold download.
+      pose proof (Hreq (DomS owner) u io) as Hq.
+      destruct (opn (DomS owner) u io) as [o io1]; cbn in Hq.
+      assert (N1 : NoDup (reqs io1)).
+      { rewrite Hq. constructor; auto. intro Hin. apply M in Hin. rewrite (has_none _ _ Hn) in Hin. discriminate. }
+      assert (F1 : sframe io io1).
+      { intros q Hin. rewrite Hq in Hin. destruct Hin as [<-|Hin]; auto. }
+      assert (Fail : sfail io io1) by (split; auto).
+      assert (Good : forall x', sstep s io (mkS ((u, x') :: s_memo s)
+                                   (slots_of (SUrl u) (length (x_refs x')) ++ s_rem s)) io1).
+      { intro x'. split; [split; auto|split; auto].
+        - intros v Hin. cbn. rewrite Hq in Hin. destruct Hin as [E|Hin].
+          + inversion E; subst. apply has_cons_same.
+          + apply has_cons_mono. auto.
+        - intros v Hv. cbn. apply has_cons_mono. auto. }
+      destruct o as [d|]; cbn; auto.
+      destruct d; cbn; auto.
+      destruct incl.
+      - destruct (x_tns x).
+        + destruct (optN_eqb tns (Some n)); [apply (Good x)|exact Fail].
+        + apply (Good (mkX tns (x_refs x))).
+      - apply (Good x).
+    Qed.
+
+    Lemma target_once cont self tns base r s io :
+      SI s io -> tpost s io (target IO opn cont owner self tns base r s io).
+    Proof.
+      intro H. unfold target. destruct r.
+      - destruct (match self with SInl _ => if optN_eqb ns tns then None else locate cont ns
+                              | SUrl _ => None end); cbn; [apply sstep_refl; auto|].
+        destruct loc; cbn; [|apply sstep_refl; auto].
+        destruct (lookup (join base s0) (s_memo s)) eqn:E; cbn; [apply sstep_refl; auto|].
+        apply download_once; auto.
+      - destruct (lookup (join base loc) (s_memo s)) eqn:E; cbn; [apply sstep_refl; auto|].
+        apply download_once; auto.
+    Qed.
+
+    Lemma open_refs_once rec cont self tns base :
+      (forall t s io, SI s io -> spost s io (rec t s io)) ->
+      forall refs i s io, SI s io ->
+        spost s io (open_refs IO opn rec cont owner self tns base i refs s io).
+    Proof.
+      intro Hrec. induction refs as [|r rest IH]; intros i s io H; cbn.
+      - apply sstep_refl; auto.
+      - destruct (negb (mem_slot (self, i) (s_rem s))); auto.
+        set (s1 := mkS (s_memo s) (remove_slot (self, i) (s_rem s))).
+        assert (H1 : sstep s io s1 io) by (apply (sstep_refl s1 io); exact H).
+        pose proof (target_once cont self tns base r s1 io H) as Ht.
+        destruct (target IO opn cont owner self tns base r s1 io) as [[[[t|] s2]|k|] io2];
+          unfold tpost in Ht.
+        + pose proof (sstep_trans _ _ _ _ _ _ H1 Ht) as H2.
+          pose proof (Hrec t s2 io2 (proj1 Ht)) as Hr.
+          destruct (rec t s2 io2) as [[s3|k|] io3]; unfold spost in Hr.
+          * pose proof (sstep_trans _ _ _ _ _ _ H2 Hr) as H3.
+            apply (spost_trans _ _ _ _ _ H3). apply IH. exact (proj1 Hr).
+          * exact (sstep_fail_trans _ _ _ _ _ H2 Hr).
+          * exact (sstep_fail_trans _ _ _ _ _ H2 Hr).
+        + pose proof (sstep_trans _ _ _ _ _ _ H1 Ht) as H2.
+          apply (spost_trans _ _ _ _ _ H2). apply IH. exact (proj1 Ht).
+        + exact Ht.
+        + exact Ht.
+    Qed.
+
+    Lemma open_imports_once cont fuel :
+      forall t s io, SI s io -> spost s io (open_imports IO opn cont owner fuel t s io).
+    Proof.
+      induction fuel as [|f IH]; intros t s io H; cbn.
+      - split; [exact (proj1 H)|intros q; auto].
+      - destruct (sid_info cont owner t s) as [[[tns refs] base]|].
+        + apply open_refs_once; auto.
+        + cbn. split; [exact (proj1 H)|intros q; auto].
+    Qed.
+
+    Lemma open_all_once cont fuel :
+      forall js s io, SI s io -> spost s io (open_all IO opn cont owner fuel js s io).
+    Proof.
+      induction js as [|j rest IH]; intros s io H; cbn.
+      - apply sstep_refl; auto.
+      - pose proof (open_imports_once cont fuel (SInl j) s io H) as Ho.
+        destruct (open_imports IO opn cont owner fuel (SInl j) s io) as [[s1|k|] io1]; cbn in Ho; auto.
+        eapply spost_trans; eauto. apply IH. exact (proj1 Ho).
+    Qed.
+
+    Lemma build_schema_once roots io :
+      NoDup (reqs io) -> (forall u, ~ In (DomS owner, u) (reqs io)) ->
+      sfail io (snd (build_schema IO opn univ owner roots io)).
+    Proof.
+      intros N M. unfold build_schema.
+      set (cont := consolidate roots).
+      assert (H : SI (mkS [] (cont_slots 0 cont)) io).
+      { split; auto. intros u Hin. destruct (M u Hin). }
+      pose proof (open_all_once cont (schema_fuel univ cont) (seq 0 (length cont)) _ io H) as Ho.
+      destruct (open_all IO opn cont owner (schema_fuel univ cont) (seq 0 (length cont)) _ io)
+        as [[s1|k|] io1]; cbn in *; auto.
+      eapply sstep_fail; eauto.
+    Qed.
+  End Schema.
+
+  (* WSDL level *)
+  Definition WI (s : wst) (io : IO) : Prop :=
+    NoDup (reqs io) /\ forall q, In q (reqs io) -> has (rkey q) (w_memo s) = true.
+  Definition wframe (s : wst) (io io' : IO) : Prop :=
+    forall q, In q (reqs io') -> In q (reqs io) \/ has (rkey q) (w_memo s) = false.
+  Definition wmono (s s' : wst) : Prop := forall u, has u (w_memo s) = true -> has u (w_memo s') = true.
+  Definition wstep (s : wst) (io : IO) (s' : wst) (io' : IO) : Prop :=
+    WI s' io' /\ wframe s io io' /\ wmono s s'.
+  Definition wfail (s : wst) (io io' : IO) : Prop := NoDup (reqs io') /\ wframe s io io'.
+  Definition wpost (s : wst) (io : IO) (r : outcome wst * IO) : Prop :=
+    match r with (Ok s', io') => wstep s io s' io' | (_, io') => wfail s io io' end.
+
+  Lemma wstep_refl s io : WI s io -> wstep s io s io.
+  Proof. intro H. split; auto. split; [intros q; auto|intros u; auto]. Qed.
+
+  Lemma wframe_trans s io s2 io2 io3 :
+    wframe s io io2 -> wmono s s2 -> wframe s2 io2 io3 -> wframe s io io3.
+  Proof.
+    intros F2 M2 F3 q Hq. destruct (F3 q Hq) as [H|H]; auto.
+    right. destruct (has (rkey q) (w_memo s)) eqn:E; auto. apply M2 in E. congruence.
+  Qed.
+
+  Lemma wstep_trans s io s2 io2 s3 io3 :
+    wstep s io s2 io2 -> wstep s2 io2 s3 io3 -> wstep s io s3 io3.
+  Proof.
+    intros [I2 [F2 M2]] [I3 [F3 M3]]. split; auto. split.
+    - eapply wframe_trans; eauto.
+    - intros u Hu. auto.
+  Qed.
+
+  Lemma wpost_trans s io s2 io2 r : wstep s io s2 io2 -> wpost s2 io2 r -> wpost s io r.
+  Proof.
+    intros H1 H2. destruct r as [[s3|k|] io3]; cbn in *.
+    - eapply wstep_trans; eauto.
+    - destruct H1 as [I2 [F2 M2]], H2 as [N3 F3]. split; auto. eapply wframe_trans; eauto.
+    - destruct H1 as [I2 [F2 M2]], H2 as [N3 F3]. split; auto. eapply wframe_trans; eauto.
+  Qed.
+
+  Lemma has_set_types k u ts s : has k (w_memo (set_types u ts s)) = has k (w_memo s).
+  Proof.
+    unfold set_types. destruct (lookup u (w_memo s)) eqn:E; auto. cbn.
+    apply has_set_memo. unfold has. rewrite E. auto.
+  Qed.
+
+  Lemma has_import k self d s :
+    has k (w_memo (if d_wsdl d then import_definitions self d s else import_schema self d s))
+    = has k (w_memo s).
+  Proof.
+    destruct (d_wsdl d).
+    - unfold import_definitions. apply has_set_types.
+    - unfold import_schema. destruct (d_xroot d); auto.
+      destruct (self_types self s); auto. rewrite has_set_types. reflexivity.
+  Qed.
+
+  Lemma wstep_import s io self d :
+    WI s io -> wstep s io (if d_wsdl d then import_definitions self d s else import_schema self d s) io.
+  Proof.
+    intros [N M]. split; [split; auto|split].
+    - intros q Hq. rewrite has_import. auto.
+    - intros q; auto.
+    - intros u Hu. rewrite has_import. auto.
+  Qed.
+
+  Lemma loop_imports_once rec self :
+    (forall u s io, WI s io -> lookup u (w_memo s) = None -> wpost s io (rec u s io)) ->
+    forall imps s io, WI s io -> wpost s io (loop_imports IO rec self imps s io).
+  Proof.
+    intro Hrec. induction imps as [|loc rest IH]; intros s io H; cbn.
+    - apply wstep_refl; auto.
+    - assert (K : forall s1 io1, wstep s io s1 io1 ->
+                  wpost s io (match lookup (join self loc) (w_memo s1) with
+                              | Some d => loop_imports IO rec self rest
+                                            (if d_wsdl d then import_definitions self d s1
+                                             else import_schema self d s1) io1
+                              | None => (Raised 9, io1)
+                              end)).
+      { intros s1 io1 H1. destruct (lookup (join self loc) (w_memo s1)) as [d|].
+        - pose proof (wstep_import s1 io1 self d (proj1 H1)) as H2.
+          eapply wpost_trans; [eapply wstep_trans; eauto|]. apply IH. exact (proj1 H2).
+        - cbn. destruct H1 as [[N1 _] [F1 _]]. split; auto. }
+      destruct (lookup (join self loc) (w_memo s)) eqn:El.
+      + apply K. apply wstep_refl; auto.
+      + pose proof (Hrec (join self loc) s io H El) as Hr.
+        destruct (rec (join self loc) s io) as [[s1|k|] io1]; cbn in Hr; auto.
+  Qed.
+
+  Lemma load_defs_once fuel :
+    forall u s io, WI s io -> lookup u (w_memo s) = None ->
+      wpost s io (load_defs IO opn univ fuel u s io).
+  Proof.
+    induction fuel as [|f IH]; intros u s io H Hn; cbn.
+    - split; [exact (proj1 H)|intros q; auto].
+    - destruct H as [N M].
+      pose proof (Hreq DomW u io) as Hq.
+      destruct (opn DomW u io) as [o io1]; cbn in Hq.
+      assert (Hu : has u (w_memo s) = false) by (apply has_none; auto).
+      assert (N1 : NoDup (reqs io1)).
+      { rewrite Hq. constructor; auto. intro Hin. apply M in Hin. cbn in Hin. congruence. }
+      assert (F1 : wframe s io io1).
+      { intros q Hin. rewrite Hq in Hin. destruct Hin as [<-|Hin]; auto. }
+      assert (Fail : wfail s io io1) by (split; auto).
+      assert (Reg : forall di heap built, wstep s io (mkW ((u, di) :: w_memo s) heap built) io1).
+      { intros di heap built. split; [split; auto|split; auto].
+        - intros q Hin. cbn. rewrite Hq in Hin. destruct Hin as [<-|Hin].
+          + cbn. apply has_cons_same.
+          + apply has_cons_mono. auto.
+        - intros v Hv. cbn. apply has_cons_mono. auto. }
+      destruct o as [d|]; cbn; auto.
+      destruct d as [imps types|x|]; cbn; auto.
+      + destruct (alloc_types u types (w_heap s)) as [tids heap].
+        set (s1 := mkW ((u, mkD true tids None) :: w_memo s) heap (w_built s)).
+        pose proof (Reg (mkD true tids None) heap (w_built s)) as H1. fold s1 in H1.
+        pose proof (loop_imports_once (load_defs IO opn univ f) u IH imps s1 io1 (proj1 H1)) as Hl.
+        destruct (loop_imports IO (load_defs IO opn univ f) u imps s1 io1) as [[s2|k|] io2]; cbn in Hl.
+        * assert (H2 : wstep s io s2 io2) by (eapply wstep_trans; eauto).
+          destruct Hl as [[N2 M2] [F2 Mo2]].
+          assert (Hu2 : has u (w_memo s2) = true) by (apply Mo2; apply has_cons_same).
+          assert (No : forall v, ~ In (DomS u, v) (reqs io2)).
+          { intros v Hin. destruct (F2 _ Hin) as [Hin1|Hk].
+            - rewrite Hq in Hin1. destruct Hin1 as [E|Hin0]; [discriminate|].
+              apply M in Hin0. cbn in Hin0. congruence.
+            - cbn in Hk. unfold s1 in Hk. cbn in Hk. rewrite has_cons_same in Hk. discriminate. }
+          pose proof (build_schema_once u (local_roots u s2) io2 N2 No) as [N3 F3].
+          assert (W3 : forall io3, NoDup (reqs io3) -> sframe u io2 io3 -> wfail s io io3).
+          { intros io3 Nd Fr. split; auto. intros q Hin. destruct (Fr q Hin) as [Hin2|Hd].
+            - destruct H2 as [_ [F _]]. auto.
+            - right. destruct q as [[|o] v]; cbn in Hd; try discriminate.
+              inversion Hd; subst. cbn. auto. }
+          destruct (build_schema IO opn univ u (local_roots u s2) io2) as [[s3|k|] io3]; cbn in *.
+          -- split; [split; auto|split].
+             ++ intros q Hin. destruct (F3 q Hin) as [Hin2|Hd]; auto.
+                destruct q as [[|o] v]; cbn in Hd; try discriminate. inversion Hd; subst. cbn. auto.
+             ++ exact (proj2 (W3 io3 N3 F3)).
+             ++ destruct H2 as [_ [_ Mo]]. exact Mo.
+          -- apply W3; auto.
+          -- apply W3; auto.
+        * cbn. destruct Hl as [N2 F2]. split; auto.
+          destruct H1 as [_ [F Mo]]. eapply wframe_trans; eauto.
+        * cbn. destruct Hl as [N2 F2]. split; auto.
+          destruct H1 as [_ [F Mo]]. eapply wframe_trans; eauto.
+      + apply (Reg (mkD false [] (Some x)) (w_heap s) (u :: w_built s)).
+  Qed.
+
+  Transparent load_root.
+  Lemma load_root_once root io : reqs io = [] -> NoDup (reqs (snd (load_root IO opn univ root io))).
+  Proof.
+    intro E. unfold load_root.
+    assert (H : WI (mkW [] [] []) io).
+    { split; rewrite E; [constructor|intros q []]. }
+    pose proof (load_defs_once (S (length univ)) root _ io H eq_refl) as L.
+    destruct (load_defs IO opn univ (S (length univ)) root (mkW [] [] []) io) as [[s|k|] io']; cbn in *.
+    - exact (proj1 (proj1 L)).
+    - exact (proj1 L).
+    - exact (proj1 L).
+  Qed.
+  Opaque load_root.
+End Once.
+
+(* concrete: every DocumentReader.open is logged in i_reqs, the store
+   requests of the log are among them *)
+Lemma fetch_reqs W dm u i : i_reqs (snd (fetch W dm u i)) = i_reqs i.
+Proof. Transparent fetch. reflexivity. Opaque fetch. Qed.
+
+Lemma opn_c_reqs W dm u i : i_reqs (snd (opn_c W dm u i)) = (dm, u) :: i_reqs i.
+Proof.
+  unfold opn_c.
+  set (i0 := mkIO (i_log i) ((dm, u) :: i_reqs i) (i_dcache i) (i_n i) (i_fired i)).
+  destruct (N.eqb (w_policy W) 0).
+  - destruct (lookup u (i_dcache i0)); cbn; auto.
+    pose proof (fetch_reqs W dm u i0) as Hf.
+    destruct (fetch W dm u i0) as [[d|] i1]; cbn in *; auto.
+  - apply fetch_reqs.
+Qed.
+
+Definition log_in_reqs (i : io) : Prop :=
+  NoDup (i_reqs i) -> NoDup (fetches (i_log i)) /\ incl (fetches (i_log i)) (i_reqs i).
+
+Lemma fetch_log W dm u i :
+  fetches (i_log (snd (fetch W dm u i))) = (dm, u) :: fetches (i_log i).
+Proof.
+  Transparent fetch. unfold fetch. cbn.
+  destruct (_ || _); cbn; auto. Opaque fetch.
+Qed.
+
+Lemma fetch_keeps W dm u i :
+  i_reqs (snd (fetch W dm u i)) = i_reqs i.
+Proof. apply fetch_reqs. Qed.
+
+Lemma opn_c_log W dm u i : log_in_reqs i -> log_in_reqs (snd (opn_c W dm u i)).
+Proof.
+  intro J. unfold log_in_reqs. rewrite opn_c_reqs. intro Nd. inversion Nd as [|q l Hnin Nd']; subst.
+  destruct (J Nd') as [Nf Inc].
+  assert (Keep : NoDup (fetches (i_log i)) /\ incl (fetches (i_log i)) ((dm, u) :: i_reqs i)).
+  { split; auto. intros q Hq. right. auto. }
+  assert (Add : NoDup ((dm, u) :: fetches (i_log i)) /\ incl ((dm, u) :: fetches (i_log i)) ((dm, u) :: i_reqs i)).
+  { split.
+    - constructor; auto.
+    - intros q [<-|Hq]; [left; auto|right; auto]. }
+  clear Nd. unfold opn_c.
+  set (i0 := mkIO (i_log i) ((dm, u) :: i_reqs i) (i_dcache i) (i_n i) (i_fired i)).
+  assert (L0 : fetches (i_log (snd (fetch W dm u i0))) = (dm, u) :: fetches (i_log i))
+    by (exact (fetch_log W dm u i0)).
+  destruct (N.eqb (w_policy W) 0).
+  - destruct (lookup u (i_dcache i0)); [exact Keep|].
+    destruct (fetch W dm u i0) as [[d|] i1]; cbn [snd fst i_log] in *; rewrite L0; auto.
+  - rewrite L0. auto.
+Qed.
+
+Transparent load_root.
+Lemma load_once_l W root i :
+  i_reqs i = [] -> i_log i = [] ->
+  NoDup (fetches (i_log (snd (load_root io (opn_c W) (docs_of W) root i)))).
+Proof.
+  intros Er El.
+  pose proof (load_root_once io (opn_c W) (docs_of W) i_reqs (opn_c_reqs W) root i Er) as Nd.
+  pose proof (load_root_inv_all io (opn_c W) (docs_of W) log_in_reqs (opn_c_log W) root i) as J.
+  apply J; auto.
+  unfold log_in_reqs. rewrite Er, El. cbn. intros _. split; [constructor|intros q []].
+Qed.
+Opaque load_root.
+
+Lemma client_once_l W root oc i :
+  i_reqs i = [] -> i_log i = [] ->
+  NoDup (fetches (i_log (snd (fst (client_load W root oc i))))).
+Proof.
+  intros Er El. destruct (client_io W root oc i) as [E|E]; rewrite E.
+  - rewrite El. constructor.
+  - apply load_once_l; auto.
+Qed.
+
+
+(* ------------------------------------------------------------------ *)
+(* reachable only                                                      *)
+(* ------------------------------------------------------------------ *)
+
+(* WSDL level, unconditionally: a wsdl:import location is resolved against
+   the URL of the document that contains it, so every document asked for on
+   behalf of imported_definitions is reachable from the root *)
+Section WReach.
+  Variable IO : Type.
+  Variable opn : dom -> str -> IO -> option doc * IO.
+  Variable univ : list (str * doc).
+  Variable reqs : IO -> list (dom * str).
+  Variable W : world.
+  Variable root : str.
+  Variable Pio : IO -> Prop.
+  Hypothesis Hreq : forall d u io, reqs (snd (opn d u io)) = (d, u) :: reqs io.
+  Hypothesis Pio_opn : forall d u io, Pio io -> Pio (snd (opn d u io)).
+  Hypothesis Hsrc : forall d u io x, Pio io -> fst (opn d u io) = Some x -> src W u = Some x.
+
+  Definition WR (io : IO) : Prop := Pio io /\ forall v, In (DomW, v) (reqs io) -> reach W root v.
+
+  Lemma build_schema_wr owner roots io : WR io -> WR (snd (build_schema IO opn univ owner roots io)).
+  Proof.
+    intro H.
+    pose proof (build_schema_inv IO opn univ WR WR (fun _ h => h)) as L.
+    assert (Hop : forall o u x, WR x ->
+                  match opn (DomS o) u x with (Some _, io') => WR io' | (None, io') => WR io' end).
+    { intros o u x [Px Hx].
+      assert (K : WR (snd (opn (DomS o) u x))).
+      { split; [apply Pio_opn; auto|]. intros v Hv. rewrite Hreq in Hv.
+        destruct Hv as [E|Hv]; [discriminate|auto]. }
+      destruct (opn (DomS o) u x) as [[?|] ?]; auto. }
+    specialize (L Hop owner roots io H). unfold post in L.
+    destruct (build_schema IO opn univ owner roots io) as [[?|?|] ?]; auto.
+  Qed.
+
+  Lemma loop_imports_wr rec self d :
+    reach W root self -> src W self = Some d ->
+    (forall u s io, reach W root u -> WR io -> WR (snd (rec u s io))) ->
+    forall imps s io, (forall l, In l imps -> In l (doc_locs d)) -> WR io ->
+      WR (snd (loop_imports IO rec self imps s io)).
+  Proof.
+    intros Rs Hd Hrec. induction imps as [|loc rest IH]; intros s io Hin H; cbn; auto.
+    assert (Rl : reach W root (join self loc)).
+    { eapply reach_step; eauto. apply Hin. left; auto. }
+    assert (Hin' : forall l, In l rest -> In l (doc_locs d)) by (intros l Hl; apply Hin; right; auto).
+    destruct (lookup (join self loc) (w_memo s)) eqn:El.
+    - rewrite El. apply IH; auto.
+    - pose proof (Hrec (join self loc) s io Rl H) as Hr.
+      destruct (rec (join self loc) s io) as [[s1|k|] io1]; cbn in *; auto.
+      destruct (lookup (join self loc) (w_memo s1)); cbn; auto.
+  Qed.
+
+  Lemma load_defs_wr fuel : forall u s io, reach W root u -> WR io -> WR (snd (load_defs IO opn univ fuel u s io)).
+  Proof.
+    induction fuel as [|f IH]; intros u s io Ru [P H]; cbn; [split; auto|].
+    pose proof (Pio_opn DomW u io P) as P1.
+    pose proof (Hreq DomW u io) as Hq.
+    pose proof (Hsrc DomW u io) as Hs.
+    destruct (opn DomW u io) as [o io1]; cbn in *.
+    assert (H1 : WR io1).
+    { split; auto. intros v Hv. rewrite Hq in Hv. destruct Hv as [E|Hv]; auto.
+      inversion E; subst; auto. }
+    destruct o as [d|]; cbn; auto.
+    specialize (Hs d P eq_refl).
+    destruct d as [imps types|x|]; cbn; auto.
+    destruct (alloc_types u types (w_heap s)) as [tids heap].
+    pose proof (loop_imports_wr (load_defs IO opn univ f) u (DWsdl imps types) Ru Hs IH imps
+                  (mkW ((u, mkD true tids None) :: w_memo s) heap (w_built s)) io1) as Hl.
+    assert (Hin : forall l, In l imps -> In l (doc_locs (DWsdl imps types))).
+    { intros l Hl0. cbn. apply in_or_app. left; auto. }
+    specialize (Hl Hin H1).
+    destruct (loop_imports IO (load_defs IO opn univ f) u imps _ io1) as [[s2|k|] io2]; cbn in *; auto.
+    pose proof (build_schema_wr u (local_roots u s2) io2 Hl) as Hb.
+    destruct (build_schema IO opn univ u (local_roots u s2) io2) as [[s3|k|] io3]; cbn in *; auto.
+  Qed.
+End WReach.
+
+Lemma opn_c_src W dm u i x :
+  cache_sound W (i_dcache i) -> fst (opn_c W dm u i) = Some x -> src W u = Some x.
+Proof.
+  intros Hs H.
+  assert (V : served W u = Some x).
+  { revert H. unfold opn_c.
+    set (i0 := mkIO (i_log i) ((dm, u) :: i_reqs i) (i_dcache i) (i_n i) (i_fired i)).
+    destruct (N.eqb (w_policy W) 0).
+    - destruct (lookup u (i_dcache i0)) eqn:E; cbn.
+      + intro H. inversion H; subst. apply Hs. apply lookup_in. exact E.
+      + pose proof (fetch_some W dm u i0) as Hf.
+        destruct (fetch W dm u i0) as [[d|] i1]; cbn in *; try discriminate.
+        intro H. inversion H; subst. apply (Hf x eq_refl).
+    - intro H. apply (fetch_some W dm u i0 x H). }
+  unfold served in V. destruct (is_suds u && negb (held W u)); [discriminate|].
+  apply good_some in V. exact V.
+Qed.
+
+Transparent load_root.
+Lemma wsdl_requests_reachable_l W root i :
+  cache_sound W (i_dcache i) -> i_reqs i = [] ->
+  forall v, In (DomW, v) (i_reqs (snd (load_root io (opn_c W) (docs_of W) root i))) -> reach W root v.
+Proof.
+  intros Hs Er.
+  pose proof (load_defs_wr io (opn_c W) (docs_of W) i_reqs W root (fun x => cache_sound W (i_dcache x))
+                (opn_c_reqs W) (fun d u x => opn_c_sound W d u x) (fun d u x y => opn_c_src W d u x y)
+                (S (length (docs_of W))) root (mkW [] [] []) i (reach_root W root)) as L.
+  apply L. split; auto. rewrite Er. intros v [].
+Qed.
+Opaque load_root.
+
+(* the same for the store requests of the log *)
+Lemma incl_fetches_reqs W root i :
+  i_reqs i = [] -> i_log i = [] ->
+  incl (fetches (i_log (snd (load_root io (opn_c W) (docs_of W) root i))))
+       (i_reqs (snd (load_root io (opn_c W) (docs_of W) root i))).
+Proof.
+  intros Er El.
+  pose proof (load_root_once io (opn_c W) (docs_of W) i_reqs (opn_c_reqs W) root i Er) as Nd.
+  pose proof (load_root_inv_all io (opn_c W) (docs_of W) log_in_reqs (opn_c_log W) root i) as J.
+  apply J; auto.
+  unfold log_in_reqs. rewrite Er, El. cbn. intros _. split; [constructor|intros q []].
+Qed.
+
+Lemma wsdl_fetches_reachable_l W root oc i :
+  cache_sound W (i_dcache i) -> i_reqs i = [] -> i_log i = [] ->
+  forall v, In (DomW, v) (fetches (i_log (snd (fst (client_load W root oc i))))) -> reach W root v.
+Proof.
+  intros Hs Er El v Hv. destruct (client_io W root oc i) as [E|E]; rewrite E in Hv.
+  - rewrite El in Hv. destruct Hv.
+  - apply (wsdl_requests_reachable_l W root i Hs Er). apply (incl_fetches_reqs W root i Er El). exact Hv.
+Qed.
+
+(* schema level: refuted in general.  [mentioned_b] over-approximates reach. *)
+Definition mentioned_b (W : world) (root v : str) : bool :=
+  str_eqb v root ||
+  existsb (fun e => existsb (fun l => str_eqb v (join (fst e) l)) (doc_locs (snd (snd e)))) (w_docs W).
+
+Lemma reach_mentioned W root v : reach W root v -> mentioned_b W root v = true.
+Proof.
+  intro H. unfold mentioned_b. destruct H as [|u d l Hr Hs Hl].
+  - rewrite str_eqb_refl. auto.
+  - apply orb_true_iff. right. unfold src in Hs.
+    destruct (lookup u (w_docs W)) as [[b d']|] eqn:E; [|discriminate]. inversion Hs; subst.
+    apply lookup_in in E. apply existsb_exists. exists (u, (b, d)). split; auto. cbn.
+    apply existsb_exists. exists l. split; auto. apply str_eqb_refl.
+Qed.
